@@ -9,6 +9,7 @@ import (
 	"math/rand"
 	"os"
 	"strings"
+	"sync/atomic"
 	"time"
 
 	"io"
@@ -141,9 +142,15 @@ func cmdEngineTraces(args []string) {
 			if r.Float64() < *nestP {
 				cc.NestAt = 1 + r.Intn(3)
 			}
+			if cc.UseCtx && r.Intn(3) == 0 {
+				cc.LateTimer = true
+			}
 			c.Calls = append(c.Calls, cc)
 		}
 		cnt("cases", 1)
+		if atomic.LoadInt32(&hangs) >= 6 {
+			break
+		}
 		runOne := func(c *Case) int {
 			c.ID = id
 			id++
@@ -182,6 +189,7 @@ func cmdEngineTraces(args []string) {
 				c2 := *c
 				c2.Calls = append([]CallCfg{}, c.Calls...)
 				c2.Calls[last].CancelAt = s
+				c2.Calls[last].FarDeadline = r.Intn(2) == 0
 				runOne(&c2)
 				if s >= 2 && r.Intn(2) == 0 {
 					// the same cancellation point, after a user method ran other rules on the same engine value
@@ -202,6 +210,7 @@ func cmdEngineTraces(args []string) {
 				c5.Calls = append([]CallCfg{}, c.Calls...)
 				c5.Calls[last].LookAt = k
 				c5.Calls[last].UseCtx = true
+				c5.Calls[last].FarDeadline = r.Intn(2) == 0
 				runOne(&c5)
 			}
 		}
